@@ -261,6 +261,16 @@ def lives(ctx, n):
             cfg["domainsCrawl"] = []
             site = c06.gen_site(r)
             seed = r.choice(c06.SEEDS)
+            if k < 3:
+                # an asset that redirects to a URL the operator excluded, next to siblings that still have work on the same level:
+                # the rejected redirect target costs that one URL, the rest of the level is fetched and the seed ends only then
+                filt = [dict(excludeHosts=list(stage.DEFAULT_EXCLUDED) + ["excluded.example"]), dict(excludeStrings=["/forbidden/"]),
+                        dict(regexes=[r"/forbidden/"])][k]
+                cfg = dict(dict(cfg, includeHosts=[], includeStrings=[], excludeHosts=list(stage.DEFAULT_EXCLUDED), excludeStrings=[], regexes=[],
+                                disableAssets=False, maxRedirect=3), **filt)
+                site.add("http://site.example/toex", status=302, location="http://excluded.example/forbidden/e.png")
+                site.add("http://site.example/lifehub", assets=["/toex", "/api/data.json", "/img/a.png", "/red/1"], outlinks=[])
+                seed = "http://site.example/lifehub"
             act, tree, trace = stage.run_seed(run_, cfg, site, seed, seed_id="life%d" % k, max_passes=c06.budget(cfg),
                                               regex_match=stage.regex_matcher(cfg))
             rp = {"domain": "stage", "cfg": cfg, "seed": seed, "site": site.pages}
